@@ -19,6 +19,8 @@ import z3
 
 I, R, B = z3.IntSort(), z3.RealSort(), z3.BoolSort()
 DOT = z3.Function('dot_R', z3.ArraySort(I, R), z3.ArraySort(I, R), I, I, R)      # ghost: sum_{lo <= j < hi} a[j]*b[j]
+# ghost: cdot(a, M, c, lo, hi) = sum_{lo <= j < hi} a[j]*M[j][c]   (a row against column c of a matrix)
+CDOT = z3.Function('cdot_R', z3.ArraySort(I, R), z3.ArraySort(I, z3.ArraySort(I, R)), I, I, I, R)
 
 
 class Unsupported(Exception):
@@ -303,6 +305,9 @@ class Gen(object):
 
     # ---------------------------------------------------------------- obligations
     def oblige(self, name, path, goal, kind, line=0, extra=()):
+        if name.startswith('nonzero-divisor@') and getattr(self, 'zdiv_capture', None) is not None:
+            self.zdiv_capture.append(goal)          # inside `try: <one statement> except ZeroDivisionError:` - a branch
+            return
         self.obls.append(Obligation(name, list(path.hyps) + list(extra), goal, kind, line))
 
     # ---------------------------------------------------------------- spec expressions
@@ -438,6 +443,9 @@ class Gen(object):
             if f == 'dot':          # dot(a, b, lo, hi) ghost
                 a_, b_ = ev(n.args[0]), ev(n.args[1])
                 return DOT(a_.arr, b_.arr, ev(n.args[2]), ev(n.args[3]))
+            if f == 'cdot':         # cdot(a, M, c, lo, hi) ghost
+                a_, m_ = ev(n.args[0]), ev(n.args[1])
+                return CDOT(a_.arr, m_.arr, ev(n.args[2]), ev(n.args[3]), ev(n.args[4]))
             if f == 'sum':          # sum(a, lo, hi) ghost
                 l = ev(n.args[0])
                 return self.sumfn(l)(l.arr, ev(n.args[1]), ev(n.args[2]))
@@ -907,6 +915,31 @@ class Gen(object):
                                         ('forall', [jv], ('implies', atom(z3.And(lo <= jv, jv < hi)),
                                                           atom(z3.And(jv >= 0, jv < X.ln, jv < Y.ln)))), 'safety', n.lineno)
                             return DOT(X.arr, Y.arr, lo, z3.If(hi >= lo, hi, lo))
+                # sum([X[j] * M[j][c] for j in range(lo, hi)])  ==  the ghost cdot(X, M, c, lo, hi)
+                if isinstance(a0, ast.ListComp) and len(a0.generators) == 1 and not a0.generators[0].ifs \
+                        and isinstance(a0.generators[0].target, ast.Name) and isinstance(a0.elt, ast.BinOp) \
+                        and isinstance(a0.elt.op, ast.Mult) \
+                        and isinstance(a0.elt.left, ast.Subscript) and isinstance(a0.elt.left.slice, ast.Name) \
+                        and a0.elt.left.slice.id == a0.generators[0].target.id \
+                        and isinstance(a0.elt.right, ast.Subscript) and isinstance(a0.elt.right.value, ast.Subscript) \
+                        and isinstance(a0.elt.right.value.slice, ast.Name) \
+                        and a0.elt.right.value.slice.id == a0.generators[0].target.id \
+                        and isinstance(a0.generators[0].iter, ast.Call) and isinstance(a0.generators[0].iter.func, ast.Name) \
+                        and a0.generators[0].iter.func.id == 'range' and len(a0.generators[0].iter.args) in (1, 2):
+                    jn = a0.generators[0].target.id
+                    free = lambda t: jn not in {x.id for x in ast.walk(t) if isinstance(x, ast.Name)}
+                    if free(a0.elt.left.value) and free(a0.elt.right.value.value) and free(a0.elt.right.slice):
+                        X, M_, cix = ev(a0.elt.left.value), ev(a0.elt.right.value.value), ev(a0.elt.right.slice)
+                        rng = [ev(x) for x in a0.generators[0].iter.args]
+                        lo, hi = (z3.IntVal(0), rng[0]) if len(rng) == 1 else (rng[0], rng[1])
+                        if isinstance(X, SList) and X.et == 'real' and isinstance(M_, SList) and M_.et == ('list', 'real') \
+                                and is_int(cix):
+                            jv = z3.Int('j?')
+                            self.oblige('index-in-range@%d' % n.lineno, path,
+                                        ('forall', [jv], ('implies', atom(z3.And(lo <= jv, jv < hi)),
+                                                          atom(z3.And(jv >= 0, jv < X.ln, jv < M_.ln, cix >= 0,
+                                                                      cix < z3.Select(M_.ilen, jv))))), 'safety', n.lineno)
+                            return CDOT(X.arr, M_.arr, cix, lo, z3.If(hi >= lo, hi, lo))
                 # sum(X[lo:hi])  ==  the ghost sum(X, lo', hi') with the bounds normalised and clamped as Python does
                 if isinstance(a0, ast.Subscript) and isinstance(a0.slice, ast.Slice) and a0.slice.step is None:
                     X = ev(a0.value)
@@ -990,7 +1023,7 @@ class Gen(object):
                 v = ev(n.args[0])
                 path.env[obj.id] = self.append(l, v)
                 return NONE
-            if isinstance(obj, ast.Name) and obj.id in ('linalg', 'helpers', 'knotvector', 'utilities', 'compatibility'):
+            if isinstance(obj, ast.Name) and obj.id in ('linalg', '_linalg', 'helpers', 'knotvector', 'utilities', 'compatibility'):
                 qual = obj.id + '.' + meth
                 if qual in self.registry:
                     return self.call_contract(qual, n, path)
@@ -1460,6 +1493,25 @@ class Gen(object):
             if self.feasible(b):
                 out += self.block(st.orelse, [b])
             return out
+        if isinstance(st, ast.Try) and len(st.body) == 1 and len(st.handlers) == 1 and not st.orelse and not st.finalbody \
+                and isinstance(st.handlers[0].type, ast.Name) and st.handlers[0].type.id == 'ZeroDivisionError' \
+                and isinstance(st.body[0], (ast.Assign, ast.AugAssign)):
+            # try: <one assignment> except ZeroDivisionError: <handler>.  The assignment raises exactly when one of its
+            # divisors is zero (nothing is stored before the right-hand side is evaluated), so the statement is the branch
+            #     if every divisor != 0: <assignment>   else: <handler>
+            exc = path.fork()
+            self.zdiv_capture = []
+            try:
+                ok = self.stmt(st.body[0], path)
+            finally:
+                conds, self.zdiv_capture = self.zdiv_capture, None
+            for p_ in ok:
+                p_.hyps += conds
+            exc.hyps.append(('not', f_and(conds)) if conds else atom(z3.BoolVal(False)))
+            out = list(ok)
+            if conds and self.feasible(exc):
+                out += self.block(st.handlers[0].body, [exc])
+            return out
         if isinstance(st, ast.Try):
             # supported shape: guards that only re-raise (input validation); the handlers are dropped
             self.dropped.append('try/except handlers at line %d (only re-raise)' % st.lineno)
@@ -1600,6 +1652,12 @@ class Gen(object):
             self.oblige('loop%d.variant.bounded@%d' % (k, st.lineno), body, atom(variant0 >= 0), 'contract', st.lineno)
         elif not is_for:
             raise Unsupported('while loop %d without a decreases clause' % k)
+        for j, txt in enumerate(spec.get('entry_hints', [])):
+            # ghost assertions at the START of the body (the loop variable has its current value): proved, then
+            # available to the obligations of the body's statements (index safety of a nonlinear flat index)
+            f = self.spec(txt, body.env)
+            self.oblige('loop%d.entry_hint[%d]@%d' % (k, j, st.lineno), body, f, 'scaffolding', st.lineno)
+            body.hyps.append(f)
         ends = self.block(st.body, [body])
         for e in ends:
             if is_for:
